@@ -19,7 +19,7 @@ class Spec:
     rule = ""
     assumptions = COMMON_ASSUMPTIONS
     case_timeout = 60.0
-    sizes = {"quick": 100, "thorough": 2000}
+    sizes = {"quick": 100, "thorough": 6000}
     budgets = {"quick": 150.0, "thorough": 900.0}
 
     def n_cases(self, tier):
@@ -201,7 +201,7 @@ class C01(RunSpec):
         "non-trivial when >=1 evaluated point lay within 1% of a face; distinct = distinct (engine mix, box class, objective family)"
     )
     monitors = (_mon("C01Box"),)
-    sizes = {"quick": 160, "thorough": 4000}
+    sizes = {"quick": 160, "thorough": 12000}
 
     def profile(self, rng, idx, tier):
         p = {"dim": (2, 6), "stacks": False}
@@ -249,7 +249,7 @@ class C02(RunSpec):
         "generation held both carried-over and newly evaluated individuals"
     )
     monitors = (_mon("C02Truth"),)
-    sizes = {"quick": 160, "thorough": 3000}
+    sizes = {"quick": 160, "thorough": 9000}
 
     def profile(self, rng, idx, tier):
         p = {"dim": (2, 4)}
@@ -323,7 +323,7 @@ class C03(RunSpec):
         "consultation; distinct non-trivial = distinct (engine mix, stack shape) with >=10 consultations at which >=2 demes had non-zero counts"
     )
     monitors = (_mon("C03Counts"),)
-    sizes = {"quick": 200, "thorough": 4000}
+    sizes = {"quick": 200, "thorough": 12000}
 
     def profile(self, rng, idx, tier):
         p = {"dim": (2, 4)}
@@ -372,7 +372,7 @@ class C04(RunSpec):
         "distinct non-trivial = distinct (engine mix, direction) whose best improved at >=2 boundaries, plus budget pairs whose logs differ in length"
     )
     monitors = (_mon("C04Best"),)
-    sizes = {"quick": 180, "thorough": 3600}
+    sizes = {"quick": 180, "thorough": 10800}
 
     def profile(self, rng, idx, tier):
         p = {"dim": (2, 4)}
@@ -433,7 +433,7 @@ class C05(RunSpec):
         "falls after varied generations of varied demes; distinct non-trivial = distinct (GSC class, engine of the in-flight deme or boundary kind, demes still to run)"
     )
     monitors = (_mon("C05Stop"),)
-    sizes = {"quick": 220, "thorough": 4000}
+    sizes = {"quick": 220, "thorough": 12000}
 
     def profile(self, rng, idx, tier):
         p = {"dim": (2, 3), "max_pop": 12}
@@ -571,7 +571,7 @@ class C06(RunSpec):
         "driven to internal termination; distinct non-trivial = distinct (deme class, deactivation cause)"
     )
     monitors = (_mon("C06Life"),)
-    sizes = {"quick": 180, "thorough": 3000}
+    sizes = {"quick": 180, "thorough": 9000}
 
     def profile(self, rng, idx, tier):
         p = {"dim": (2, 3)}
@@ -658,7 +658,7 @@ class C07(RunSpec):
         "distinct non-trivial = distinct tree shapes (multiset of (level, parent id, engine)) observed at boundaries"
     )
     monitors = (_mon("C07Structure"),)
-    sizes = {"quick": 180, "thorough": 3000}
+    sizes = {"quick": 180, "thorough": 9000}
 
     def profile(self, rng, idx, tier):
         p = {"dim": (2, 3)}
@@ -740,7 +740,7 @@ class C08(RunSpec):
         "that free slots; distinct non-trivial = distinct (active census before the round, L, candidates offered) at which a round had to cut"
     )
     monitors = (_mon("C08LevelLimit"),)
-    sizes = {"quick": 200, "thorough": 4000}
+    sizes = {"quick": 200, "thorough": 12000}
 
     def profile(self, rng, idx, tier):
         p = {"dim": (2, 3)}
@@ -788,7 +788,7 @@ class C09(RunSpec):
         "their centroid was first read; distinct non-trivial = distinct (sibling engine, filter, moved-more-than-threshold yes/no) with >=1 decision"
     )
     monitors = (_mon("C09Distance"),)
-    sizes = {"quick": 180, "thorough": 3000}
+    sizes = {"quick": 180, "thorough": 9000}
 
     def profile(self, rng, idx, tier):
         p = {"dim": (2, 3)}
@@ -866,7 +866,7 @@ class C11(RunSpec):
         "with an intra-metaepoch pair containing both carried and new individuals"
     )
     monitors = (_mon("C11Breeding"),)
-    sizes = {"quick": 180, "thorough": 3000}
+    sizes = {"quick": 180, "thorough": 9000}
 
     def profile(self, rng, idx, tier):
         p = {"dim": (2, 3), "allow_cutoff": False}
@@ -903,7 +903,7 @@ class C12(RunSpec):
         "population sizes; distinct non-trivial = distinct (engine, direction, k_elites, generations) with >=1 strict improvement and >=1 unchanged best"
     )
     monitors = (_mon("C12Elitism"),)
-    sizes = {"quick": 200, "thorough": 4000}
+    sizes = {"quick": 200, "thorough": 12000}
 
     def profile(self, rng, idx, tier):
         p = {"dim": (2, 3)}
@@ -948,7 +948,7 @@ class C18(RunSpec):
         "that fill up and LSCs that free slots; distinct non-trivial = distinct (height, mechanism, engine of the sleeper) with >=1 sleep->wake cycle"
     )
     monitors = (_mon("C18Hibernation"),)
-    sizes = {"quick": 220, "thorough": 3000}
+    sizes = {"quick": 220, "thorough": 9000}
 
     def profile(self, rng, idx, tier):
         p = {"dim": (2, 3)}
@@ -1150,7 +1150,7 @@ class C17(DirectSpec):
         "apply_bounds called directly on whole 2-D arrays mixing interior / face / ulp-neighbour / multiple-of-range / half-period / far "
         "points for boxes of every class; exact rational oracle; distinct non-trivial = distinct (method, box class, point class) cells with >=1 input outside the box"
     )
-    sizes = {"quick": 210, "thorough": 21000}
+    sizes = {"quick": 210, "thorough": 84000}
     budgets = {"quick": 150.0, "thorough": 1500.0}
     assumptions = [
         "floats are treated as exact rationals (fractions.Fraction); tolerance for moved coordinates is 8*eps*(|x|+|lower|+|upper|), vacuous when it exceeds the range",
@@ -1170,7 +1170,7 @@ class C16(DirectSpec):
         "call sequences next to a reference model of each wrapper, every observable compared after every call; distinct non-trivial = distinct "
         "(stack shape, direction) with >=1 call past a cutoff or repeated precision hits"
     )
-    sizes = {"quick": 2000, "thorough": 100000}
+    sizes = {"quick": 2000, "thorough": 400000}
     budgets = {"quick": 150.0, "thorough": 1500.0}
     assumptions = ["the reference model of each wrapper (vlib/monitors/c16.py: Model) is the specification", "objective = first coordinate of the point (so the harness controls every returned value)"]
 
@@ -1192,7 +1192,7 @@ class C15(DirectSpec):
         "n 2-60, dim 1-8, factors 0.5-4, truncation 0.1-1 incl. K=1) and compared with an independent O(n^2) reference, plus metamorphic re-runs; "
         "distinct non-trivial = distinct (class, n, dim, factor, truncation) whose reference result has >=2 and <K seeds"
     )
-    sizes = {"quick": 4000, "thorough": 200000}
+    sizes = {"quick": 4000, "thorough": 600000}
     budgets = {"quick": 150.0, "thorough": 1800.0}
     assumptions = [
         "vlib/monitors/c15.py:ref_nbc is the definition; threshold decisions are three-valued (relative band 1e-9)",
@@ -1261,7 +1261,7 @@ class C19(DirectSpec):
         "public snapshot + raw digest + GSC verdict of the loaded tree vs. the live one; loaded trees continued to the end (from the dump-time RNG state) under the C03/C04/C07/C08 "
         "monitors and compared with the live tree's own future; distinct non-trivial = distinct (engine mix, k, hibernation, objective form) snapshots of trees with >=2 demes"
     )
-    sizes = {"quick": 48, "thorough": 500}
+    sizes = {"quick": 48, "thorough": 2000}
     budgets = {"quick": 200.0, "thorough": 2400.0}
     case_timeout = 240.0
 
@@ -1288,7 +1288,7 @@ class C20(RunSpec):
         "random order with call-log length, raw digest and RNG fingerprint compared around it; seeded runs are compared with an undisturbed twin at the end; "
         "distinct non-trivial = distinct (height, engine mix, boundary index) reports with >=3 deme lines"
     )
-    sizes = {"quick": 120, "thorough": 2000}
+    sizes = {"quick": 120, "thorough": 6000}
 
     def profile(self, rng, idx, tier):
         p = {"dim": (2, 3), "max_pop": 12}
@@ -1352,7 +1352,7 @@ class C10(DirectSpec):
         "and synthetic candidate sets (sizes 0-12 per parent, distinct / tied / all-equal fitness, exact and near duplicates of existing seeds, both directions, limits 1-5, chains in random order), "
         "plus the same oracles on every generator / filter application of real runs through taps; distinct non-trivial = distinct (filter, direction, tie pattern, occupancy) in which the filter removed something but not everything"
     )
-    sizes = {"quick": 400, "thorough": 12000}
+    sizes = {"quick": 400, "thorough": 40000}
     budgets = {"quick": 150.0, "thorough": 1800.0}
 
     def floors(self, tier):
